@@ -123,7 +123,7 @@ theorem validateEvm_eq {s s1 : St} {tx : TxIn} {rc : Account} (h : validateEvm s
   all_goals first | cases h | skip
   all_goals rfl
 
-theorem validateTrx_eq {s s1 : St} {e : Bool} {ht : Int} {tx : TxIn} {snd rcv : Account}
+theorem validateTrx_limiter {s s1 : St} {e : Bool} {ht : Int} {tx : TxIn} {snd rcv : Account}
     (h : validateTrx s e ht tx snd rcv = .ok s1) : ∃ l, s1 = { s with limiter := l } := by
   unfold validateTrx at h
   simp only [bind, Except.bind, pure, Except.pure, throw, throwThe, MonadExceptOf.throw] at h
